@@ -246,7 +246,7 @@ TInfo == /\ \/ Is("sendCall") \/ Is("closeQuit")
             \/ Is("closeCall") \/ Is("closeRet") \/ Is("sExit") \/ Is("rExit")
             \/ Is("blockedAtClose") \/ Is("netAtClose") \/ Is("postSend")
             \/ Is("postRecv") \/ Is("peerCheck") \/ Is("inventory")
-            \/ Is("closeStuck")
+            \/ Is("closeStuck") \/ Is("selfClosed")
          /\ Adv /\ Stutter /\ UNCHANGED <<held, szS, strict>>
          /\ dead' = IF Ev.ev \in {"closeQuit", "fin", "pongTimeout"}
                     THEN [dead EXCEPT ![E] = TRUE] ELSE dead
